@@ -82,7 +82,11 @@ func compObjs(
 		return object.BuiltInFalse
 	}
 
-	for sym, pair1 := range *o1.Pairs {
+	// NOTE: compare in the order of keys (public, then private: both sorted) because `==` of
+	// the values may be user-defined and the order of its calls must not depend on the map layout
+	syms := append(append([]object.SymHash{}, *o1.Keys...), *o1.PrivateKeys...)
+	for _, sym := range syms {
+		pair1 := (*o1.Pairs)[sym]
 		pair2, ok := (*o2.Pairs)[sym]
 		if !ok {
 			return object.BuiltInFalse
